@@ -260,8 +260,25 @@ void InterfacePayload::setData(const uint8_t* streamIds,
 
 bool InterfacePayload::isValidPayload(const uint8_t* data, const size_t size)
 {
+    if (size < minPayloadSize)
+        return false;
+
     auto header = reinterpret_cast<const Header*>(data);
-    return (size >= sizeof(Header) && header->getInterfaceStatus() <= InterfaceStatus::disabled);
+    if (header->getInterfaceStatus() > InterfaceStatus::disabled)
+        return false;
+
+    // stream id count, stream ids padded to even length, vendor data length, vendor data
+    size_t pos = sizeof(Header);
+    size_t count = swapEndian(*reinterpret_cast<const uint16_t*>(data + pos));
+    pos += sizeof(uint16_t);
+    if (count % 2)
+        ++count;
+    if (count > size - pos || size - pos - count < sizeof(uint16_t))
+        return false;
+    pos += count;
+    const size_t vendorDataLength = swapEndian(*reinterpret_cast<const uint16_t*>(data + pos));
+    pos += sizeof(uint16_t);
+    return vendorDataLength <= size - pos;
 }
 
 const InterfacePayload::Header* InterfacePayload::getHeader() const
